@@ -871,6 +871,10 @@ fn exhaustive_alphabet() -> Vec<Op> {
         Op::SetArg(0, 0, 40000),
         Op::SetArg(40000, 2, 65535),
         Op::UnsetArg(0, 0, 0),
+        // one node passed for two arguments of one instantiation (`f` and `g` of test:b are both `func()`), unset by name
+        Op::SetArg(0, 3, 40000),
+        Op::UnsetArg(0, 0, 40000),
+        Op::UnsetArg(0, 3, 40000),
         Op::Export(0, 1),
         Op::Export(0, 2),
         Op::Export(65535, 0),
@@ -886,7 +890,7 @@ pub fn run(tier: Tier, seed: u64, replay: Option<&std::path::Path>) -> i32 {
         tier,
         seed,
         "exploration",
-        "operation histories over the public CompositionGraph API on a tiny universe (3 packages a/b/c where a's and b's exports satisfy each other's imports and a/c conflict on import `i`; 7 import names, 6 export names, 3 defined types forming a chain and a diamond; 6 import kinds). Exhaustive: every sequence up to length L over a 22-op alphabet (symmetry-free prefix tree); random: histories up to 60 ops with removal / re-creation so identifiers and names are reused. After every step the call's result and all queries are compared with a reference model written from the method docs and the guarded invariant hook must report nothing; every 4th step and at the end the graph is encoded (result class must be one the model's state justifies, output must validate). Non-trivial = a removal/unregister/unexport of something that had a dependant, argument edge, export or import name, followed by at least one further operation. Distinct by JSON hash of the op sequence.",
+        "operation histories over the public CompositionGraph API on a tiny universe (3 packages a/b/c where a's and b's exports satisfy each other's imports and a/c conflict on import `i`; 7 import names, 6 export names, 3 defined types forming a chain and a diamond; 6 import kinds). Exhaustive: every sequence up to length L over a 25-op alphabet from four prefixes (symmetry-free prefix tree); random: histories up to 60 ops with removal / re-creation so identifiers and names are reused. After every step the call's result and all queries are compared with a reference model written from the method docs and the guarded invariant hook must report nothing; every 4th step and at the end the graph is encoded (result class must be one the model's state justifies, output must validate). Non-trivial = a removal/unregister/unexport of something that had a dependant, argument edge, export or import name, followed by at least one further operation. Distinct by JSON hash of the op sequence.",
     );
     run.exhaustive = Some(true);
     run.assume("only live identifiers are passed (documented panics on invalid ids are outside the property)");
@@ -911,7 +915,7 @@ pub fn run(tier: Tier, seed: u64, replay: Option<&std::path::Path>) -> i32 {
         }
     }
     // a fixed useful prefix so short sequences reach interesting states: packages registered, two instances
-    for prefix in [vec![], vec![Op::Register(0), Op::Register(1), Op::Instantiate(0), Op::Instantiate(1)], vec![Op::Register(0), Op::Instantiate(0), Op::Alias(0, 0), Op::Register(1), Op::Instantiate(1), Op::SetArg(40000, 0, 30000)]] {
+    for prefix in [vec![], vec![Op::Register(0), Op::Register(1), Op::Instantiate(0), Op::Instantiate(1)], vec![Op::Register(0), Op::Instantiate(0), Op::Alias(0, 0), Op::Register(1), Op::Instantiate(1), Op::SetArg(40000, 0, 30000)], vec![Op::Register(1), Op::Instantiate(1), Op::Import(0, 0)]] {
         let mut cur = prefix.clone();
         let mut out = vec![];
         rec(&alpha, prefix.len() + depth, &mut cur, &mut out);
